@@ -177,14 +177,35 @@ func c09Hostiles() []hostile {
 	}
 	// payload-specific
 	hs = append(hs,
-		hostile{"unstake.hash=nil", func(t *ctrlertypes.Trx) { t.Type = ctrlertypes.TRX_UNSTAKING; t.Payload = &ctrlertypes.TrxPayloadUnstaking{} }},
-		hostile{"unstake.hash=31", func(t *ctrlertypes.Trx) { t.Type = ctrlertypes.TRX_UNSTAKING; t.Payload = &ctrlertypes.TrxPayloadUnstaking{TxHash: make([]byte, 31)} }},
-		hostile{"unstake.hash=33", func(t *ctrlertypes.Trx) { t.Type = ctrlertypes.TRX_UNSTAKING; t.Payload = &ctrlertypes.TrxPayloadUnstaking{TxHash: make([]byte, 33)} }},
-		hostile{"unstake.hash=zero32", func(t *ctrlertypes.Trx) { t.Type = ctrlertypes.TRX_UNSTAKING; t.Payload = &ctrlertypes.TrxPayloadUnstaking{TxHash: make([]byte, 32)} }},
-		hostile{"withdraw.req=0", func(t *ctrlertypes.Trx) { t.Type = ctrlertypes.TRX_WITHDRAW; t.Payload = &ctrlertypes.TrxPayloadWithdraw{ReqAmt: uint256.NewInt(0)} }},
-		hostile{"withdraw.req=2^256-1", func(t *ctrlertypes.Trx) { t.Type = ctrlertypes.TRX_WITHDRAW; t.Payload = &ctrlertypes.TrxPayloadWithdraw{ReqAmt: max} }},
+		hostile{"unstake.hash=nil", func(t *ctrlertypes.Trx) {
+			t.Type = ctrlertypes.TRX_UNSTAKING
+			t.Payload = &ctrlertypes.TrxPayloadUnstaking{}
+		}},
+		hostile{"unstake.hash=31", func(t *ctrlertypes.Trx) {
+			t.Type = ctrlertypes.TRX_UNSTAKING
+			t.Payload = &ctrlertypes.TrxPayloadUnstaking{TxHash: make([]byte, 31)}
+		}},
+		hostile{"unstake.hash=33", func(t *ctrlertypes.Trx) {
+			t.Type = ctrlertypes.TRX_UNSTAKING
+			t.Payload = &ctrlertypes.TrxPayloadUnstaking{TxHash: make([]byte, 33)}
+		}},
+		hostile{"unstake.hash=zero32", func(t *ctrlertypes.Trx) {
+			t.Type = ctrlertypes.TRX_UNSTAKING
+			t.Payload = &ctrlertypes.TrxPayloadUnstaking{TxHash: make([]byte, 32)}
+		}},
+		hostile{"withdraw.req=0", func(t *ctrlertypes.Trx) {
+			t.Type = ctrlertypes.TRX_WITHDRAW
+			t.Payload = &ctrlertypes.TrxPayloadWithdraw{ReqAmt: uint256.NewInt(0)}
+		}},
+		hostile{"withdraw.req=2^256-1", func(t *ctrlertypes.Trx) {
+			t.Type = ctrlertypes.TRX_WITHDRAW
+			t.Payload = &ctrlertypes.TrxPayloadWithdraw{ReqAmt: max}
+		}},
 		hostile{"vote.hash=nil", func(t *ctrlertypes.Trx) { t.Type = ctrlertypes.TRX_VOTING; t.Payload = &ctrlertypes.TrxPayloadVoting{} }},
-		hostile{"vote.hash=31", func(t *ctrlertypes.Trx) { t.Type = ctrlertypes.TRX_VOTING; t.Payload = &ctrlertypes.TrxPayloadVoting{TxHash: make([]byte, 31)} }},
+		hostile{"vote.hash=31", func(t *ctrlertypes.Trx) {
+			t.Type = ctrlertypes.TRX_VOTING
+			t.Payload = &ctrlertypes.TrxPayloadVoting{TxHash: make([]byte, 31)}
+		}},
 		hostile{"vote.choice=-1", func(t *ctrlertypes.Trx) {
 			if p, ok := t.Payload.(*ctrlertypes.TrxPayloadVoting); ok {
 				p.Choice = -1
@@ -195,10 +216,22 @@ func c09Hostiles() []hostile {
 				p.Choice = 1<<31 - 1
 			}
 		}},
-		hostile{"contract.data=empty", func(t *ctrlertypes.Trx) { t.Type = ctrlertypes.TRX_CONTRACT; t.Payload = &ctrlertypes.TrxPayloadContract{} }},
-		hostile{"contract.data=10kB-FE", func(t *ctrlertypes.Trx) { t.Type = ctrlertypes.TRX_CONTRACT; t.Payload = &ctrlertypes.TrxPayloadContract{Data: []byte(strings.Repeat("\xfe", 10240))} }},
-		hostile{"contract.data=selfdestruct-init", func(t *ctrlertypes.Trx) { t.Type = ctrlertypes.TRX_CONTRACT; t.Payload = &ctrlertypes.TrxPayloadContract{Data: []byte{0x33, 0xff}} }},
-		hostile{"setdoc=10kB", func(t *ctrlertypes.Trx) { t.Type = ctrlertypes.TRX_SETDOC; t.Payload = &ctrlertypes.TrxPayloadSetDoc{Name: big10k, URL: big10k} }},
+		hostile{"contract.data=empty", func(t *ctrlertypes.Trx) {
+			t.Type = ctrlertypes.TRX_CONTRACT
+			t.Payload = &ctrlertypes.TrxPayloadContract{}
+		}},
+		hostile{"contract.data=10kB-FE", func(t *ctrlertypes.Trx) {
+			t.Type = ctrlertypes.TRX_CONTRACT
+			t.Payload = &ctrlertypes.TrxPayloadContract{Data: []byte(strings.Repeat("\xfe", 10240))}
+		}},
+		hostile{"contract.data=selfdestruct-init", func(t *ctrlertypes.Trx) {
+			t.Type = ctrlertypes.TRX_CONTRACT
+			t.Payload = &ctrlertypes.TrxPayloadContract{Data: []byte{0x33, 0xff}}
+		}},
+		hostile{"setdoc=10kB", func(t *ctrlertypes.Trx) {
+			t.Type = ctrlertypes.TRX_SETDOC
+			t.Payload = &ctrlertypes.TrxPayloadSetDoc{Name: big10k, URL: big10k}
+		}},
 		hostile{"setdoc=empty", func(t *ctrlertypes.Trx) { t.Type = ctrlertypes.TRX_SETDOC; t.Payload = &ctrlertypes.TrxPayloadSetDoc{} }},
 	)
 	pp := func(name string, f func(p *ctrlertypes.TrxPayloadProposal)) hostile {
